@@ -36,6 +36,8 @@ let handle cmd =
     str_cost (dtw_model u s1 s2)
   | "pydist" -> let u = rd_usettings () in let s1 = rd_series () in let s2 = rd_series () in
     str_cost (dist_model u s1 s2)
+  | "pydistp" -> let b = nint () in let u = rd_usettings () in let s1 = rd_series () in let s2 = rd_series () in
+    str_cost (distp_model u s1 s2 (if b < 0 then Inf else Fin (z_of_int b)))
   | "wps" -> let u = rd_usettings () in let s1 = rd_series () in let s2 = rd_series () in
     str_matrix (wps_matrix u s1 s2)
   | "bp" -> let u = rd_usettings () in let s1 = rd_series () in let s2 = rd_series () in
